@@ -400,7 +400,9 @@ def cfg_sites():
                 kind = "expr"
             elif which == "cfg_attr":
                 kind = "derive" if re.match(r"(derive|serde)\(", rest) else "attr"
-            elif kind in ("struct", "enum", "trait", "static", "const", "let", "macro_rules!", "expr"):
+            elif kind in ("struct", "enum", "trait", "static", "const", "macro_rules!"):
+                kind = "item"
+            elif kind in ("let", "expr"):
                 kind = "other"
             sites.append({"file": fn, "cond": cond, "kind": kind, "depth": depth, "negated": "not(" in cond})
             i = after
@@ -604,7 +606,7 @@ def emit_lean(t):
     L.append("")
     L.append("/-! Conditional compilation sites of the non-test source (C17). -/")
     L.append("inductive CfgKind where")
-    L.append("  | use | mod | type | impl | derive | fn | attr | expr | other")
+    L.append("  | use | mod | type | impl | derive | fn | item | attr | expr | other")
     L.append("  deriving DecidableEq, Repr")
     L.append("structure CfgSite where")
     L.append("  file : String")
